@@ -1,6 +1,7 @@
-// GENERATED on every run by tools/kani_extract.py -- function text cut verbatim from /repo/src
+// GENERATED on every run by tools/kani_extract.py -- function text cut verbatim from /repo/src; the #[cfg_attr(kani, ..)] lines are contracts
 
 // lib.rs:1750
+#[cfg_attr(kani, kani::ensures(|r: &usize| *r == if b < 0x80 { 1 } else if b < 0xe0 { 2 } else if b < 0xf0 { 3 } else { 4 }))]
 pub fn codepoint_len(b: u8) -> usize {
     match b {
         b if b < 0x80 => 1,
@@ -11,6 +12,7 @@ pub fn codepoint_len(b: u8) -> usize {
 }
 
 // lib.rs:1556
+#[cfg_attr(kani, kani::ensures(|r: &bool| *r == matches!(c, '\\' | '.' | '+' | '*' | '?' | '(' | ')' | '|' | '[' | ']' | '{' | '}' | '^' | '$' | '#')))]
 pub fn is_special(c: char) -> bool {
     match c {
         '\\' | '.' | '+' | '*' | '?' | '(' | ')' | '|' | '[' | ']' | '{' | '}' | '^' | '$'
@@ -20,11 +22,13 @@ pub fn is_special(c: char) -> bool {
 }
 
 // parse.rs:922
+#[cfg_attr(kani, kani::ensures(|r: &bool| *r == (b'0' <= b && b <= b'9')))]
 pub fn is_digit(b: u8) -> bool {
     b'0' <= b && b <= b'9'
 }
 
 // parse.rs:926
+#[cfg_attr(kani, kani::ensures(|r: &bool| *r == ((b'0' <= b && b <= b'9') || (b'a' <= b && b <= b'f') || (b'A' <= b && b <= b'F'))))]
 pub fn is_hex_digit(b: u8) -> bool {
     is_digit(b) || (b'a' <= (b | 32) && (b | 32) <= b'f')
 }
